@@ -387,6 +387,8 @@ def exc_discriminator(e, fams, fields, tc):
             in msg and mm:
         return 'fuzzy-minmax-string-bound-violated'
     fset = '+'.join(sorted(set(fams.values())))
+    if kinds == ['rex']:
+        return 'rex-list:%s' % msg[:40]
     return '%s:%s:%s' % ('+'.join(kinds)[:40], fset, (msg[:40]))
 
 
@@ -592,6 +594,11 @@ class C02(Check):
                         'kinds: verdict unchanged, additions satisfied'),
             ('pairs', 'all pairs of kinds on one field (satisfied/violated '
                       'representatives), strict and sloppy'),
+            ('rex', 'lists of 1-3 expressions from a regex feature alphabet '
+                    '(groups, back-references, inline flags, alternation, '
+                    'anchors, dot/dollar vs newline, unicode classes) in '
+                    'EVERY order: verdict per model, order-independent, no '
+                    'exception'),
             ('report', 'two-field frames + missing field, all kinds at once, '
                        'every report mode'),
             ('file', 'the same constraints through a .tdda file'),
@@ -643,6 +650,13 @@ class C02(Check):
                     continue
                 for i, k1 in enumerate(A.KINDS):
                     yield {'L': 'pairs', 'col': col, 'k1': k1}
+        elif layer == 'rex':
+            for sub in A.rex_subsets(3):
+                for data in ('witnesses', 'witnesses+other', 'all+null'):
+                    for fam in (('strobj', 'cat') if data == 'witnesses'
+                                or tier == 'thorough' else ('strobj',)):
+                        yield {'L': 'rex', 'exprs': sub, 'data': data,
+                               'fam': fam}
         elif layer == 'report':
             for i, c1 in enumerate(REPORT_COLS):
                 for j, c2 in enumerate(REPORT_COLS):
@@ -718,6 +732,9 @@ class C02(Check):
                                     {'k2': k2, 'v1': e1, 'v2': e2, 'tc': tc,
                                      'order': order})
             nonempty = len(col['vals']) > 0
+        elif L == 'rex':
+            self.run_rex(R, case)
+            nonempty = True
         elif L == 'report':
             self.run_report(R, case)
             nonempty = True
@@ -770,6 +787,40 @@ class C02(Check):
                 run_and_judge(self.D, R, [col], [n],
                               OrderedDict([(n, fields[n])]), eps, tc, None,
                               dict(sub, field=n), series=[ser], agg=False)
+
+    def run_rex(self, R, case):
+        import itertools
+        sub, data, fam = case['exprs'], case['data'], case['fam']
+        exprs = [A.REX_ALPHABET[i][0] for i in sub]
+        vals = [A.REX_ALPHABET[i][1] for i in sub]
+        if data == 'witnesses+other':
+            vals = vals + [A.REX_NOMATCH]
+        elif data == 'all+null':
+            vals = [w for (_, w, _) in A.REX_ALPHABET] + [None]
+        col = {'fam': fam, 'vals': vals}
+        ser = [A.build_series(col)]
+        seen = {}
+        first = True
+        for perm in itertools.permutations(exprs):
+            got = run_and_judge(self.D, R, [col], [PRESENT],
+                                OrderedDict([(PRESENT, [spec_entry(
+                                    'rex', list(perm))])]),
+                                0, None, None, {'order': list(perm)},
+                                agg=first, series=ser)
+            first = False
+            seen[perm] = None if got is None else got.get(PRESENT, {}).get(
+                'rex')
+        # "The order is not significant": same verdict (and no exception
+        # in one order only) for every order of the same expressions
+        R.checked += 1
+        if len(set(seen.values())) > 1:
+            feats = sorted(A.REX_ALPHABET[i][2] for i in sub)
+            R.viol('rex-order-dependent:%s' % '+'.join(
+                       f.split(',')[0].split(' (')[0] for f in feats)[:80],
+                   'rex-list-order-not-significant',
+                   {'column': col, 'verdict_by_order': [
+                       [list(k), ('raised' if v is None else v)]
+                       for k, v in seen.items()]}, {'exprs': exprs})
 
     def run_nulladd(self, R, case):
         D = self.D
